@@ -108,23 +108,90 @@ def parseOp (orc : List (String × CertInfo)) (s : String) : Option (Option Op) 
   | "sleep" => some none
   | _ => none
 
-/-- run a whole history; one output token per constructor / operation -/
-def runHist (noUp : Bool) (cf : String) (init : List Ident) (ops : List (Option Op × String)) (times : List Nat) :
-    List String :=
+/-- what the model knew when it executed operation number `i` -/
+structure StepCtx where
+  op : Option Op
+  now : Nat
+  before : State
+
+/-- run a whole history; one output token per constructor / operation, with the context of each -/
+def runHistCtx (noUp : Bool) (cf : String) (init : List Ident) (ops : List (Option Op × String)) (times : List Nat) :
+    List String × List (Option StepCtx) :=
   let u0 : UAgent := ⟨init.foldl (fun acc id =>
       if acc.any (·.blob = id.blob) then acc.map (fun x => if x.blob = id.blob then id else x) else acc ++ [id]) [],
     false, [], false⟩
   match Shim.new noUp u0 (faultsOf cf) with
-  | none => ["newerr"]
+  | none => (["newerr"], [none])
   | some s0 =>
-    let rec go (s : State) : List (Option Op × String) → List Nat → List String
-      | [], _ => []
-      | (none, _) :: r, _ :: ts => "slept" :: go s r ts
+    let rec go (s : State) : List (Option Op × String) → List Nat → List String × List (Option StepCtx)
+      | [], _ => ([], [])
+      | (none, _) :: r, now :: ts => let (a, b) := go s r ts; ("slept" :: a, some ⟨none, now, s⟩ :: b)
       | (some op, fs) :: r, now :: ts =>
         let (s', o) := Shim.step s now (faultsOf fs) op
-        (showOut o ++ "/" ++ showU s'.u) :: go s' r ts
-      | _, [] => ["protocol-error"]
-    "new" :: go s0 ops times
+        let (a, b) := go s' r ts
+        ((showOut o ++ "/" ++ showU s'.u) :: a, some ⟨some op, now, s⟩ :: b)
+      | _, [] => (["protocol-error"], [none])
+    let (a, b) := go s0 ops times
+    ("new" :: a, none :: b)
+
+def runHist (noUp : Bool) (cf : String) (init : List Ident) (ops : List (Option Op × String)) (times : List Nat) :
+    List String := (runHistCtx noUp cf init ops times).1
+
+/-- the names (`c3`, `k1`) inside the brackets of an output token -/
+def namesIn (tok : String) : List String :=
+  ((tok.splitOn "[").drop 1).flatMap fun (part : String) =>
+    (((part.splitOn "]").headD "").splitOn "|").filterMap fun (item : String) =>
+      let n := (item.splitOn ":").headD ""
+      if n.isEmpty then none else some n
+
+/-- Which property does a blob's visibility or usability belong to, in the state the model was in?
+    outside its validity window or without its key in the underlying agent → C07; a YSSHCA
+    certificate held by the underlying agent in no-upstream mode → C09; anything else → C10. -/
+def classOfCert (ctx : StepCtx) (c : Cert) : List String :=
+  let held := ctx.before.u.idents.any fun i => i.blob = .cert c
+  let keyed := ctx.before.u.idents.any fun i => i.blob.pub = c.key
+  if !validAt c ctx.now then ["C07"]
+  else if ctx.before.noUp && c.ysshca && held then ["C09"]
+  -- mode off: "nothing is hidden" (C09) and "all listed, none lost" (C10) say the same of it
+  else if c.ysshca && held then ["C09", "C10"]
+  else if !keyed && !ctx.before.u.idents.isEmpty then ["C07"]
+  else ["C10"]
+
+def certsOfName (univ : List Cert) (names : List String) : List Cert :=
+  names.filterMap fun (n : String) => univ.find? fun c => "c" ++ toString c.id == n
+
+def blobCerts : Blob → List Cert
+  | .cert c => [c]
+  | .key _ => []
+
+def opCerts : Op → List Cert
+  | .sign b | .remove b | .addHardCert b _ | .uRemove b => blobCerts b
+  | .add id | .uAdd id => blobCerts id.blob
+  | _ => []
+
+/-- The property a disagreement between the real shim and the model at one operation belongs to:
+    lock state and lock operations → C08; otherwise by the certificates whose visibility, usability
+    or presence in the underlying agent differs, or that the operation names. -/
+def classify (univ : List Cert) (ctx : StepCtx) (modelTok implTok : String) : List String :=
+  let lockOp := match ctx.op with
+    | some (.lock _) | some (.unlock _) => true
+    | _ => false
+  if ctx.before.locked || lockOp then ["C08"]
+  else
+    -- result part and underlying-agent part are compared separately
+    let parts := fun (t : String) => match t.splitOn "/U" with
+      | [r, u] => (namesIn r, namesIn u)
+      | _ => (namesIn t, [])
+    let (mr, mu) := parts modelTok
+    let (ir, iu) := parts implTok
+    let sym := fun (a b : List String) => (a.filter (!b.contains ·)) ++ (b.filter (!a.contains ·))
+    let diff := sym mr ir ++ sym mu iu
+    let target : List Cert := match ctx.op with
+      | some (.sign (.cert c)) | some (.remove (.cert c)) | some (.addHardCert (.cert c) _) => [c]
+      | _ => []
+    let cs := certsOfName univ diff ++ target
+    let cls := (cs.flatMap (classOfCert ctx)).eraseDups
+    if cls.isEmpty then ["C10"] else cls
 
 def handleShim (op : String) (args : List String) (impl : Option (List String)) : Option Reply :=
   match op, args with
@@ -141,11 +208,26 @@ def handleShim (op : String) (args : List String) (impl : Option (List String)) 
       let times := if timesS == "-" then some [] else (timesS.splitOn ",").mapM String.toNat?
       match init, ops, times with
       | some init, some ops, some times =>
-        let model := [String.intercalate ";" (runHist noUp cf init ops times)]
+        let (toks, ctxs) := runHistCtx noUp cf init ops times
+        let univ := (init.flatMap fun i => blobCerts i.blob) ++ ops.flatMap fun (o, _) => match o with
+          | some op => opCerts op
+          | none => []
+        let model := [String.intercalate ";" toks]
         some ⟨model, impl.map fun out =>
           if out == model then "ok"
           else if ((out.headD "").splitOn "crash").length > 1 then "bad:crash"
-          else "bad:shim-history"⟩
+          else
+            -- the first operation on which the real shim and the statement's state machine differ
+            let itoks := (out.headD "").splitOn ";"
+            let rec first : List String → List String → List (Option StepCtx) → List String
+              | m :: ms, i :: is, c :: cs =>
+                if m == i then first ms is cs
+                else match c with
+                  | some ctx => classify univ ctx m i
+                  | none => ["C10"]       -- construction
+              | _, _, _ => ["C10"]
+            let cls := first toks itoks ctxs
+            "bad:" ++ String.intercalate "," (cls.map (· ++ ".shim-history"))⟩
       | _, _, _ => some badProto
     | _, _ => some badProto
   | _, _ => none
